@@ -215,6 +215,12 @@ def run_pipeline(name, binp, opsfile, workdir, tag, timeout=3000):
     env.setdefault('GOMEMLIMIT', '8GiB')
     env['VERIF_HARNESS'] = name
     env['VERIF_WORKDIR'] = workdir
+    if st.get('race'):
+        rl = os.path.join(workdir, f'{tag}.racelog')
+        for old in glob.glob(rl + '.*'):
+            os.unlink(old)
+        env['VERIF_RACELOG'] = rl
+        env['GORACE'] = f'log_path={rl} halt_on_error=0 exitcode=0'
     if st.get('strace'):
         raw = os.path.join(workdir, f'{tag}.raw.txt')
         trace = os.path.join(workdir, f'{tag}.strace.txt')
